@@ -108,3 +108,417 @@ Proof.
 Qed.
 Print Assumptions checkDecodeCashAddress_ok.
 Print Assumptions checkDecodeCashAddress_err.
+
+(* ================= DecodeAddress ================= *)
+
+Lemma lenZ_nat {A} (l : list A) (k : nat) : (Z.of_nat (length l) =? Z.of_nat k)%Z = (length l =? k)%nat.
+Proof. destruct (Z.eqb_spec (Z.of_nat (length l)) (Z.of_nat k)), (Nat.eqb_spec (length l) k); lia. Qed.
+
+Lemma ZN_eqb (a b : N) : (Z.of_N a =? Z.of_N b)%Z = (a =? b).
+Proof. destruct (Z.eqb_spec (Z.of_N a) (Z.of_N b)), (N.eqb_spec a b); lia. Qed.
+
+Lemma check_decode_err s e : check_decode s = Err e -> e = 1 \/ e = 2.
+Proof.
+  unfold check_decode. destruct (_ <? _)%nat; [intros H; injection H as <-; now left|].
+  destruct (list_eqb _ _); [discriminate|]. intros H; injection H as <-. now right.
+Qed.
+
+Section DecodeTie.
+Variable P : Type.
+Variable ec_parse : list N -> option P.
+Variables reg_pkh reg_sh : list N.
+
+Definition gDecodeAddress :=
+  Kernels3.DecodeAddress unit (option P) sha256 Base58.decode tt (parse_pubkey P ec_parse) hex_decode_string
+    (is_pkh_id reg_pkh) (is_sh_id reg_sh).
+
+Local Notation gnil := (Kernels3.bchutil_Address_nil (option P)).
+Local Notation ErrCk := Kernels3.bchutil_ErrChecksumMismatch.
+
+(* ---------- the statement ---------- *)
+(* the value returned next to an error: the nil interface, except where the code returns the result pair of
+   NewAddressPubKey (address.go:162): a nil *AddressPubKey converted to the interface Address *)
+Definition da_nil (e : N) : gaddr P :=
+  if (e =? 5) || (e =? 6) then Kernels3.bchutil_Address_AddressPubKey (option P) None else gnil.
+
+(* the error value of the model's error class: the four package-level errors are identified, every other
+   class is an error made by errors.New / passed on from a dependency (non-nil, not package-level) *)
+Definition da_code_ok (e code : N) : Prop :=
+  if e =? 7 then code = Kernels3.bchutil_ErrChecksumMismatch
+  else if e =? 8 then code = Kernels3.bchutil_ErrUnknownFormat
+  else if e =? 9 then code = Kernels3.bchutil_ErrAddressCollision
+  else if e =? 2 then code = Kernels3.bchutil_ErrUnknownAddressType
+  else 0 < code /\ code < 1000.
+
+Definition da_rel (r : res (addr P)) (g : res (gaddr P * N)) : Prop :=
+  match r with
+  | Ok a => g = Ok (to_gen a, 0)
+  | Err e => exists code, g = Ok (da_nil e, code) /\ da_code_ok e code
+  | Panic k => g = Panic k
+  end.
+
+(* ---------- the generated function, cut into the pieces the model is made of ---------- *)
+Section Net.
+Variable net : net.
+Local Notation dn := (Some (params_of net)).
+Local Notation bch := (cash_prefix net).
+Local Notation slp := (slp_prefix net).
+
+(* L91 / L123: addrWithPrefix, in continuation-passing style *)
+Definition g_with_prefix {X} (pfx addr : list N) (k : list N -> res X) : res X :=
+  do t3_ <- Go.slice addr 0%Z ((Z.of_nat (List.length bch)) + 1%Z)%Z ;;
+  do t5_ <- (if (negb (Go3.equal_fold t3_ (bch ++ [58]))) then (do t4_ <- Go.slice addr 0%Z ((Z.of_nat (List.length slp)) + 1%Z)%Z ;; Ok (negb (Go3.equal_fold t4_ (slp ++ [58])))) else Ok false) ;;
+  do addrWithPrefix <- (
+    if t5_ then
+      do t6_ <- Kernels3.asciiLower addr ;;
+      let addrWithPrefix := ((pfx ++ [58]) ++ t6_) in
+      Ok addrWithPrefix
+    else
+      Ok addr
+  ) ;;
+  k addrWithPrefix.
+
+(* L100-L118 / L130-L148: the switch on the decoded length and type *)
+Definition g_dispatch
+    (f1 : list N -> option Kernels3.chaincfg_Params -> res (option Kernels3.bchutil_AddressPubKeyHash * N))
+    (f2 : list N -> option Kernels3.chaincfg_Params -> res (option Kernels3.bchutil_AddressScriptHash * N))
+    (f3 : list N -> option Kernels3.chaincfg_Params -> res (option Kernels3.bchutil_AddressScriptHash32 * N))
+    (c1 c2 c3 c4 : N) (decoded : list N) (typ : Z) : res (gaddr P * N) :=
+  let sw1_ := (Z.of_nat (List.length decoded)) in
+  if (sw1_ =? 20%Z)%Z then
+    if (typ =? 0%Z)%Z then
+      do (t11_, t12_) <- f1 decoded dn ;;
+      Ok ((Kernels3.bchutil_Address_AddressPubKeyHash (option P) t11_), (Go3.prop c1 t12_))
+    else
+      if (typ =? 1%Z)%Z then
+        do (t13_, t14_) <- f2 decoded dn ;;
+        Ok ((Kernels3.bchutil_Address_AddressScriptHash (option P) t13_), (Go3.prop c2 t14_))
+      else
+        Ok (gnil, Kernels3.bchutil_ErrUnknownAddressType)
+  else
+    if (sw1_ =? 32%Z)%Z then
+      if (typ =? 2%Z)%Z then
+        do (t15_, t16_) <- f3 decoded dn ;;
+        Ok ((Kernels3.bchutil_Address_AddressScriptHash32 (option P) t15_), (Go3.prop c3 t16_))
+      else
+        Ok (gnil, Kernels3.bchutil_ErrUnknownAddressType)
+    else
+      Ok (gnil, c4).
+
+Definition g_dispatch_cash := g_dispatch Kernels3.newAddressPubKeyHash Kernels3.newAddressScriptHashFromHash
+  Kernels3.newAddressScriptHash32FromHash 2 3 5 7.
+Definition g_dispatch_slp := g_dispatch Kernels3.NewSlpAddressPubKeyHash Kernels3.NewSlpAddressScriptHashFromHash
+  Kernels3.NewSlpAddressScriptHash32FromHash 8 9 11 13.
+
+(* L157-L192: the raw public key and the legacy paths *)
+Definition g_tail (cashaddrErr : N) (addr : list N) : res (gaddr P * N) :=
+  if (orb ((Z.of_nat (List.length addr)) =? 130%Z)%Z ((Z.of_nat (List.length addr)) =? 66%Z)%Z) then
+    let '(t18_, t19_) := hex_decode_string addr in
+    if (negb (t19_ =? 0)) then
+      Ok (gnil, (Go3.prop 14 t19_))
+    else
+    do (t20_, t21_) <- gNewAddressPubKey P ec_parse t18_ dn ;;
+    Ok ((Kernels3.bchutil_Address_AddressPubKey (option P) t20_), (Go3.prop 15 t21_))
+  else
+  do (t22_, t23_, t24_) <- Kernels3.CheckDecode sha256 Base58.decode addr ;;
+  if (negb (t24_ =? 0)) then
+    if (t24_ =? Kernels3.base58_ErrChecksum) then
+      Ok (gnil, Kernels3.bchutil_ErrChecksumMismatch)
+    else
+    if (negb (cashaddrErr =? 0)) then
+      Ok (gnil, (Go3.prop 17 cashaddrErr))
+    else
+    Ok (gnil, Kernels3.bchutil_ErrUnknownFormat)
+  else
+  if ((Z.of_nat (List.length t22_)) =? 20%Z)%Z then
+    if (andb (is_pkh_id reg_pkh t23_) (is_sh_id reg_sh t23_)) then
+      Ok (gnil, Kernels3.bchutil_ErrAddressCollision)
+    else
+      if (is_pkh_id reg_pkh t23_) then
+        do (t25_, t26_) <- Kernels3.newLegacyAddressPubKeyHash t22_ t23_ ;;
+        Ok ((Kernels3.bchutil_Address_LegacyAddressPubKeyHash (option P) t25_), (Go3.prop 20 t26_))
+      else
+        if (is_sh_id reg_sh t23_) then
+          do (t27_, t28_) <- Kernels3.newLegacyAddressScriptHashFromHash t22_ t23_ ;;
+          Ok ((Kernels3.bchutil_Address_LegacyAddressScriptHash (option P) t27_), (Go3.prop 21 t28_))
+        else
+          Ok (gnil, Kernels3.bchutil_ErrUnknownAddressType)
+  else
+    Ok (gnil, 23).
+
+Definition g_retry (fuel : nat) (addr : list N) : res (gaddr P * N) :=
+  g_with_prefix slp addr (fun addrWithPrefix_2 =>
+    do (t33_, t34_, t35_, t36_) <- Kernels3.checkDecodeCashAddress fuel addrWithPrefix_2 ;;
+    if (t36_ =? 0) then g_dispatch_slp t33_ t35_
+    else g_tail (if (t36_ =? ErrCk) then ErrCk else 0) addr).
+
+Definition g_decode (fuel : nat) (addr : list N) : res (gaddr P * N) :=
+  if (orb ((Z.of_nat (List.length addr)) <? ((Z.of_nat (List.length bch)) + 2%Z)%Z)%Z ((Z.of_nat (List.length addr)) <? ((Z.of_nat (List.length slp)) + 2%Z)%Z)%Z) then
+    Ok (gnil, 1)
+  else
+  g_with_prefix bch addr (fun addrWithPrefix =>
+    do (t7_, t8_, t9_, t10_) <- Kernels3.checkDecodeCashAddress fuel addrWithPrefix ;;
+    if (andb (t10_ =? 0) (negb (list_eqb t8_ slp))) then g_dispatch_cash t7_ t9_
+    else if (orb (t10_ =? ErrCk) (list_eqb t8_ slp)) then g_retry fuel addr
+    else g_tail 0 addr).
+
+(* the pieces put together are the generated function (by conversion: only lets and local continuations
+   were named) *)
+Lemma DecodeAddress_unfold fuel s : gDecodeAddress fuel s dn = g_decode fuel s.
+Proof. reflexivity. Qed.
+
+
+(* ---------- the pieces against the model ---------- *)
+Ltac da_err := eexists; split; [reflexivity|first [reflexivity|split; reflexivity]].
+
+Lemma lencheck (s : list N) :
+  (((Z.of_nat (length s)) <? ((Z.of_nat (length bch)) + 2))%Z || ((Z.of_nat (length s)) <? ((Z.of_nat (length slp)) + 2))%Z)
+  = ((lenN s <? lenN bch + DA 0) || (lenN s <? lenN slp + DA 1)).
+Proof.
+  change (DA 0) with 2. change (DA 1) with 2. unfold lenN.
+  destruct (Z.ltb_spec (Z.of_nat (length s)) (Z.of_nat (length bch) + 2)),
+           (Z.ltb_spec (Z.of_nat (length s)) (Z.of_nat (length slp) + 2)),
+           (N.ltb_spec (N.of_nat (length s)) (N.of_nat (length bch) + 2)),
+           (N.ltb_spec (N.of_nat (length s)) (N.of_nat (length slp) + 2)); cbn [orb]; lia.
+Qed.
+
+(* once the length check has passed, the two slices cannot panic *)
+Lemma g_with_prefix_spec {X} slpflag s (k : list N -> res X) :
+  (length bch + 2 <= length s)%nat -> (length slp + 2 <= length s)%nat ->
+  g_with_prefix (net_prefix net slpflag) s k = k (with_prefix net slpflag s).
+Proof.
+  intros Hb Hs. unfold g_with_prefix, with_prefix, has_prefix.
+  change (N.to_nat (DA 2)) with 1%nat. change (N.to_nat (DA 3)) with 1%nat. change colon with 58.
+  replace (Z.of_nat (length bch) + 1)%Z with (Z.of_nat (length bch + 1)) by lia.
+  replace (Z.of_nat (length slp) + 1)%Z with (Z.of_nat (length slp + 1)) by lia.
+  rewrite slice_prefix by lia. cbn [rbind]. rewrite equal_fold_tie.
+  destruct (Address.equal_fold (firstn (length bch + 1) s) (bch ++ [58])); cbn [negb orb rbind]; [reflexivity|].
+  rewrite slice_prefix by lia. cbn [rbind]. rewrite equal_fold_tie.
+  destruct (Address.equal_fold (firstn (length slp + 1) s) (slp ++ [58])); cbn [negb orb rbind]; [reflexivity|].
+  rewrite asciiLower_tie. cbn [rbind]. rewrite <- app_assoc. reflexivity.
+Qed.
+
+Lemma dispatch_cash_rel decoded typ :
+  da_rel (cash_dispatch P net false decoded typ) (g_dispatch_cash decoded (Z.of_N typ)).
+Proof.
+  unfold g_dispatch_cash, g_dispatch, cash_dispatch. cbv zeta.
+  change 20%Z with (Z.of_nat 20). change 32%Z with (Z.of_nat 32). rewrite !lenZ_nat.
+  change 0%Z with (Z.of_N 0). change 1%Z with (Z.of_N 1). change 2%Z with (Z.of_N 2). rewrite !ZN_eqb.
+  change ripemd160_size with 20%nat. change sha256_size with 32%nat.
+  change AddrTypePKH with 0. change AddrTypeSH with 1. change AddrTypeSH32 with 2.
+  destruct (length decoded =? 20)%nat eqn:E20.
+  - destruct (typ =? 0).
+    { rewrite (newAddressPubKeyHash_tie P). unfold new_pkh. change ripemd160_size with 20%nat. rewrite E20. reflexivity. }
+    destruct (typ =? 1).
+    { rewrite (newAddressScriptHashFromHash_tie P). unfold new_sh. change ripemd160_size with 20%nat. rewrite E20. reflexivity. }
+    cbn [da_rel]. da_err.
+  - destruct (length decoded =? 32)%nat eqn:E32; [|cbn [da_rel]; da_err].
+    destruct (typ =? 2); [|cbn [da_rel]; da_err].
+    rewrite (newAddressScriptHash32FromHash_tie P). unfold new_sh32. change sha256_size with 32%nat. rewrite E32. reflexivity.
+Qed.
+
+Lemma dispatch_slp_rel decoded typ :
+  da_rel (cash_dispatch P net true decoded typ) (g_dispatch_slp decoded (Z.of_N typ)).
+Proof.
+  unfold g_dispatch_slp, g_dispatch, cash_dispatch. cbv zeta.
+  change 20%Z with (Z.of_nat 20). change 32%Z with (Z.of_nat 32). rewrite !lenZ_nat.
+  change 0%Z with (Z.of_N 0). change 1%Z with (Z.of_N 1). change 2%Z with (Z.of_N 2). rewrite !ZN_eqb.
+  change ripemd160_size with 20%nat. change sha256_size with 32%nat.
+  change AddrTypePKH with 0. change AddrTypeSH with 1. change AddrTypeSH32 with 2.
+  destruct (length decoded =? 20)%nat eqn:E20.
+  - destruct (typ =? 0).
+    { rewrite (NewSlpAddressPubKeyHash_tie P). unfold new_pkh. change ripemd160_size with 20%nat. rewrite E20. reflexivity. }
+    destruct (typ =? 1).
+    { rewrite (NewSlpAddressScriptHashFromHash_tie P). unfold new_sh. change ripemd160_size with 20%nat. rewrite E20. reflexivity. }
+    cbn [da_rel]. da_err.
+  - destruct (length decoded =? 32)%nat eqn:E32; [|cbn [da_rel]; da_err].
+    destruct (typ =? 2); [|cbn [da_rel]; da_err].
+    rewrite (NewSlpAddressScriptHash32FromHash_tie P). unfold new_sh32. change sha256_size with 32%nat. rewrite E32. reflexivity.
+Qed.
+
+Lemma new_pubkey_err ser e : new_pubkey P ec_parse net ser = Err e -> e = 5 \/ e = 6.
+Proof.
+  unfold new_pubkey. destruct (ec_parse ser); [|intros H; injection H as <-; now left].
+  destruct (nth_error _ _); [|discriminate].
+  repeat match goal with |- context [if ?b then _ else _] => destruct b end; try discriminate.
+  intros H; injection H as <-. now right.
+Qed.
+
+(* cashaddrErr is nil or ErrChecksumMismatch, the model carries the flag *)
+Lemma tail_rel s (b : bool) :
+  da_rel (tail_path P ec_parse net reg_pkh reg_sh s b) (g_tail (if b then ErrCk else 0) s).
+Proof.
+  unfold g_tail, tail_path.
+  change 130%Z with (Z.of_N 130). change 66%Z with (Z.of_N 66). rewrite !len_eqb_Z_N.
+  change (DA 6) with 130. change (DA 7) with 66.
+  destruct ((lenN s =? 130) || (lenN s =? 66)).
+  - unfold hex_decode_string. destruct (hex_decode s) as [ser|]; [|cbn [da_rel]; da_err].
+    change (negb (0 =? 0)) with false. cbv iota.
+    rewrite NewAddressPubKey_tie.
+    destruct (new_pubkey P ec_parse net ser) as [a|e|k] eqn:En; cbn [ctor_view rbind da_rel].
+    + rewrite (pubkey_of_to_gen P ec_parse net ser a En). reflexivity.
+    + destruct (new_pubkey_err _ _ En) as [-> | ->]; da_err.
+    + reflexivity.
+  - unfold legacy_path. rewrite CheckDecode_tie.
+    destruct (check_decode s) as [[decoded net_id]|e|k] eqn:Ec; cbn [check_decode_view rbind da_rel]; [| |reflexivity].
+    2:{ destruct (check_decode_err _ _ Ec) as [-> | ->].
+        - destruct b; cbn [da_rel]; da_err.
+        - cbn [da_rel]. da_err. }
+    change (negb (0 =? 0)) with false. cbv iota.
+    change 20%Z with (Z.of_nat 20). rewrite lenZ_nat. change ripemd160_size with 20%nat.
+    unfold is_pkh_id, is_sh_id.
+    destruct (length decoded =? 20)%nat eqn:E20; [|cbn [da_rel]; da_err].
+    destruct (Address.mem net_id reg_pkh); destruct (Address.mem net_id reg_sh); cbn [andb].
+    + cbn [da_rel]. da_err.
+    + rewrite (newLegacyAddressPubKeyHash_tie P). unfold new_leg_pkh. change ripemd160_size with 20%nat. rewrite E20. reflexivity.
+    + rewrite (newLegacyAddressScriptHashFromHash_tie P). unfold new_leg_sh. change ripemd160_size with 20%nat. rewrite E20. reflexivity.
+    + cbn [da_rel]. da_err.
+Qed.
+
+Lemma cdc_code_eqb_0 e : (cdc_code e =? 0) = false.
+Proof. apply N.eqb_neq, cdc_code_nonzero. Qed.
+
+Lemma cdc_code_eqb_ck e : (cdc_code e =? ErrCk) = (e =? 8).
+Proof.
+  destruct (N.eqb_spec e 8) as [->|Hn]; [reflexivity|].
+  apply N.eqb_neq. intros H. apply cdc_code_checksum in H. contradiction.
+Qed.
+
+Lemma retry_rel fuel s : (63 <= fuel)%nat ->
+  (length bch + 2 <= length s)%nat -> (length slp + 2 <= length s)%nat ->
+  da_rel (match snd (check_decode_cash (with_prefix net true s)) with
+          | Ok (decoded, typ) => cash_dispatch P net true decoded typ
+          | Err e => tail_path P ec_parse net reg_pkh reg_sh s (e =? 8)
+          | Panic k => Panic k
+          end) (g_retry fuel s).
+Proof.
+  intros Hf Hb Hs. unfold g_retry.
+  change slp with (net_prefix net true). rewrite g_with_prefix_spec by assumption.
+  rewrite checkDecodeCashAddress_tie by assumption.
+  destruct (check_decode_cash (with_prefix net true s)) as [pfx [[decoded typ]|e|k]]; cbn [snd cdc_view rbind].
+  - change (0 =? 0) with true. cbv iota. apply dispatch_slp_rel.
+  - rewrite cdc_code_eqb_0, cdc_code_eqb_ck. apply tail_rel.
+  - reflexivity.
+Qed.
+
+Theorem DecodeAddress_rel fuel s : (63 <= fuel)%nat ->
+  da_rel (decode_address P ec_parse net reg_pkh reg_sh s) (gDecodeAddress fuel s dn).
+Proof.
+  intros Hf. rewrite DecodeAddress_unfold. unfold g_decode, decode_address. rewrite lencheck.
+  destruct ((lenN s <? lenN bch + DA 0) || (lenN s <? lenN slp + DA 1)) eqn:Elen; [cbn [da_rel]; da_err|].
+  assert (Hb : (length bch + 2 <= length s)%nat /\ (length slp + 2 <= length s)%nat).
+  { change (DA 0) with 2 in Elen. change (DA 1) with 2 in Elen. unfold lenN in Elen.
+    apply orb_false_elim in Elen. destruct Elen as [E1 E2]. apply N.ltb_ge in E1, E2. lia. }
+  destruct Hb as [Hb Hs].
+  change bch with (net_prefix net false) at 1. rewrite g_with_prefix_spec by assumption.
+  rewrite checkDecodeCashAddress_tie by assumption.
+  pose proof (retry_rel fuel s Hf Hb Hs) as Hretry.
+  destruct (check_decode_cash (with_prefix net false s)) as [pfx [[decoded typ]|e|k]]; cbn [cdc_view rbind].
+  - change (0 =? 0) with true. destruct (list_eqb pfx slp); cbn [negb andb orb].
+    + rewrite orb_true_r. exact Hretry.
+    + apply dispatch_cash_rel.
+  - rewrite cdc_code_eqb_0, cdc_code_eqb_ck. cbn [andb].
+    destruct ((e =? 8) || list_eqb pfx slp); [exact Hretry|]. apply (tail_rel s false).
+  - reflexivity.
+Qed.
+
+End Net.
+
+(* ---------- the statement, spelled out ---------- *)
+Theorem DecodeAddress_ok fuel net s a : (63 <= fuel)%nat ->
+  decode_address P ec_parse net reg_pkh reg_sh s = Ok a ->
+  gDecodeAddress fuel s (Some (params_of net)) = Ok (to_gen a, 0).
+Proof. intros Hf E. pose proof (DecodeAddress_rel net fuel s Hf) as H. rewrite E in H. exact H. Qed.
+
+Theorem DecodeAddress_err fuel net s e : (63 <= fuel)%nat ->
+  decode_address P ec_parse net reg_pkh reg_sh s = Err e ->
+  exists code, gDecodeAddress fuel s (Some (params_of net)) = Ok (da_nil e, code) /\ code <> 0 /\
+    (e = 7 <-> code = Kernels3.bchutil_ErrChecksumMismatch) /\
+    (e = 8 <-> code = Kernels3.bchutil_ErrUnknownFormat) /\
+    (e = 9 <-> code = Kernels3.bchutil_ErrAddressCollision) /\
+    (e = 2 <-> code = Kernels3.bchutil_ErrUnknownAddressType).
+Proof.
+  intros Hf E. pose proof (DecodeAddress_rel net fuel s Hf) as H. rewrite E in H.
+  destruct H as (code & Hg & Hc). exists code. split; [exact Hg|]. clear Hg E.
+  unfold da_code_ok in Hc.
+  unfold Kernels3.bchutil_ErrChecksumMismatch, Kernels3.bchutil_ErrUnknownFormat,
+    Kernels3.bchutil_ErrAddressCollision, Kernels3.bchutil_ErrUnknownAddressType in *.
+  destruct (N.eqb_spec e 7); [subst; repeat split; intros; lia|].
+  destruct (N.eqb_spec e 8); [subst; repeat split; intros; lia|].
+  destruct (N.eqb_spec e 9); [subst; repeat split; intros; lia|].
+  destruct (N.eqb_spec e 2); [subst; repeat split; intros; lia|].
+  repeat split; intros; lia.
+Qed.
+
+Theorem DecodeAddress_panic fuel net s k : (63 <= fuel)%nat ->
+  decode_address P ec_parse net reg_pkh reg_sh s = Panic k ->
+  gDecodeAddress fuel s (Some (params_of net)) = Panic k.
+Proof. intros Hf E. pose proof (DecodeAddress_rel net fuel s Hf) as H. rewrite E in H. exact H. Qed.
+
+(* the converses: what the generated function returns determines the model's result *)
+Theorem DecodeAddress_accepts fuel net s v : (63 <= fuel)%nat ->
+  gDecodeAddress fuel s (Some (params_of net)) = Ok (v, 0) ->
+  exists a, decode_address P ec_parse net reg_pkh reg_sh s = Ok a /\ v = to_gen a.
+Proof.
+  intros Hf G. pose proof (DecodeAddress_rel net fuel s Hf) as H.
+  destruct (decode_address P ec_parse net reg_pkh reg_sh s) as [a|e|k]; cbn [da_rel] in H.
+  - exists a. split; [reflexivity|]. rewrite H in G. now injection G as <-.
+  - destruct H as (code & Hg & Hc). rewrite Hg in G. injection G as _ ->.
+    unfold da_code_ok in Hc. exfalso.
+    repeat match type of Hc with (if ?b then _ else _) => destruct b end; try discriminate Hc. lia.
+  - rewrite H in G. discriminate.
+Qed.
+
+Theorem DecodeAddress_panics_iff fuel net s k : (63 <= fuel)%nat ->
+  gDecodeAddress fuel s (Some (params_of net)) = Panic k <->
+  decode_address P ec_parse net reg_pkh reg_sh s = Panic k.
+Proof.
+  intros Hf. split; [|now apply DecodeAddress_panic].
+  intros G. pose proof (DecodeAddress_rel net fuel s Hf) as H.
+  destruct (decode_address P ec_parse net reg_pkh reg_sh s) as [a|e|k']; cbn [da_rel] in H.
+  - rewrite H in G. discriminate.
+  - destruct H as (code & Hg & _). rewrite Hg in G. discriminate.
+  - rewrite H in G. injection G as ->. reflexivity.
+Qed.
+
+(* a nil *chaincfg.Params is dereferenced first *)
+Theorem DecodeAddress_nil fuel s : gDecodeAddress fuel s None = Panic 5.
+Proof. reflexivity. Qed.
+
+End DecodeTie.
+
+Print Assumptions DecodeAddress_rel.
+Print Assumptions DecodeAddress_ok.
+Print Assumptions DecodeAddress_err.
+Print Assumptions DecodeAddress_panic.
+Print Assumptions DecodeAddress_accepts.
+Print Assumptions DecodeAddress_panics_iff.
+Print Assumptions DecodeAddress_nil.
+
+(* ---------- the statement is not vacuous: every kind of outcome is taken ---------- *)
+Section Examples.
+Let noparse : list N -> option unit := fun _ => None.
+Let run := gDecodeAddress unit noparse registered_pkh_ids registered_sh_ids 63.
+(* "bitcoincash:qpm2qsznhks23z7629mms6s4cwef74vcwvy22gdx6a" *)
+Let s1 : list N := [98;105;116;99;111;105;110;99;97;115;104;58;113;112;109;50;113;115;122;110;104;107;115;50;51;122;55;54;50;57;109;109;115;54;115;52;99;119;101;102;55;52;118;99;119;118;121;50;50;103;100;120;54;97].
+(* "1BvBMSEYstWetqTFn5Au4m4GFg7xJaNVN2" *)
+Let s2 : list N := [49;66;118;66;77;83;69;89;115;116;87;101;116;113;84;70;110;53;65;117;52;109;52;71;70;103;55;120;74;97;78;86;78;50].
+
+Example DecodeAddress_ex_cash :
+  run s1 (Some (params_of mainnet)) =
+  Ok (to_gen (PKH (cash_prefix mainnet) [118;160;64;83;189;160;168;139;218;81;119;184;106;21;195;178;159;85;152;115]), 0)
+  /\ run (skipn 12 s1) (Some (params_of mainnet)) = run s1 (Some (params_of mainnet)).
+Proof. vm_compute. split; reflexivity. Qed.
+
+Example DecodeAddress_ex_legacy :
+  run s2 (Some (params_of mainnet)) =
+  Ok (to_gen (LegPKH 0 [119;191;242;12;96;229;34;223;170;51;80;195;155;3;10;93;0;78;131;154]), 0).
+Proof. vm_compute. reflexivity. Qed.
+
+(* a 66-character hex string that is not a public key: the error of bchec.ParsePubKey passed on at site 15,
+   next to a nil *AddressPubKey converted to the interface (model: Err 5) *)
+Example DecodeAddress_ex_typed_nil :
+  run (repeat 48 66) (Some (params_of mainnet)) = Ok (Kernels3.bchutil_Address_AddressPubKey (option unit) None, 15)
+  /\ decode_address unit noparse mainnet registered_pkh_ids registered_sh_ids (repeat 48 66) = Err 5.
+Proof. vm_compute. split; reflexivity. Qed.
+End Examples.
